@@ -32,7 +32,7 @@ COMPONENTS = {"real": ["robotools BaseWorklist.save/__enter__/__exit__/__str__ a
                        "CPython io/pathlib", "kernel file system (tmpfs scratch dir)"],
               "stub": ["user script (seeded generator)"]}
 ASSUMPTIONS = ["OS-level I/O errors are not injected (the statement is silent about them)",
-               "record alphabet: printable Latin-1 without control characters"]
+               "record alphabet: printable Latin-1, tab, and the chr(48)..chr(175) range of EVO well selections (no CR/LF inside a record)"]
 
 TEXTS = ["hello", "µL of Müller's buffer", "ÿ±½ end", "  padded  ", "a\nb\n\nc", "x" * 60, "tab\there", "semi-colon free", "€ not latin-1"]
 GOOD_NAMES = ["out.gwl", "OUT.GWL", "my worklist.gwl", "a.b.gwl", "second.Gwl", "µ.gwl", "sub dir/in dir.gwl"]
@@ -331,6 +331,15 @@ def gen_record_op(rng, gen, sess_like, world):
                 "kw": {"multi_disp": rng.choice([1, 6]), "exclude_wells": sorted(rng.sample(range(1, 3), rng.randint(0, 1)))}}
     if r < 0.7:
         return {"op": "evo_wash", "tips": [1, 2], "waste": [52, 2], "cleaner": [52, 1]}
+    if r < 0.76:
+        # an EVO script command as evo_aspirate writes it: the well selection packs 7 wells per character,
+        # chr(48) ... chr(175) - that range contains DEL and C1 control characters such as NEL (0x85)
+        sel = [chr(48 + rng.randrange(128)) for _ in range(rng.randint(2, 14))]
+        if rng.random() < 0.3:
+            sel[rng.randrange(len(sel))] = rng.choice(["\x85", "\x7f", "\x9c", "\xa0", "\xad"])
+        return {"op": "append_raw", "record": 'B;Aspirate(15,"Water","50.0","50.0",0,0,0,0,0,0,0,0,0,0,38,1,1,"0C08%s",0,0);' % "".join(sel)}
+    if r < 0.80 and world["device"] == "evo":
+        return gen.gen_evo(sess_like, rng.choice(["evo_aspirate", "evo_dispense"]), intent="ok")
     return None
 
 
